@@ -388,11 +388,27 @@ func ruleExtractorsWriteOnly(r *Run) {
 			if recvNamedOf(gf) == "LabelSet" || pkgOfFunc(gf) != pkgOfFunc(fn) {
 				continue
 			}
+			type use struct {
+				callee *ssa.Function
+				pos    token.Pos
+			}
+			var uses []use
 			for _, c := range callsIn(gf) {
-				callee := staticCallee(c)
-				if callee == nil || recvNamedOf(callee) != "LabelSet" {
-					continue
+				if callee := staticCallee(c); callee != nil && recvNamedOf(callee) == "LabelSet" {
+					uses = append(uses, use{callee, c.Pos()})
 				}
+				// a label set method handed on as a method value (set.Set given to a matcher as its callback)
+				for _, a := range c.Common().Args {
+					if _, isSig := a.Type().Underlying().(*types.Signature); !isSig {
+						continue
+					}
+					if f, bound := predicateOf(stripTypeOnly(a)); f != nil && bound != nil && recvNamedOf(f) == "LabelSet" {
+						uses = append(uses, use{f, c.Pos()})
+					}
+				}
+			}
+			for _, u := range uses {
+				callee, c := u.callee, u
 				k++
 				switch nm := canonFuncName(callee); {
 				case nm == "Set" || nm == "SetError":
@@ -400,7 +416,7 @@ func ruleExtractorsWriteOnly(r *Run) {
 					// configuration of the set, not its content
 				default:
 					good = false
-					o.Fail(r.pos(c.Pos()), "the extractor reads the label set (%s): what it extracts depends on labels that are already there", callee.Name())
+					o.Fail(r.pos(c.pos), "the extractor reads the label set (%s): what it extracts depends on labels that are already there", callee.Name())
 				}
 			}
 		}
